@@ -35,14 +35,17 @@ ReOp(t, s) == [op |-> "append", to |-> t, s |-> s, k |-> heap[s].k, id |-> heap[
 \* elements are appended more often than the other kinds
 KindBag == SelectSeq(<<"node", "node", "node", "way", "way", "way", "relation", "relation", "changeset", "note", "user", "bounds">>,
                      LAMBDA k : k \in Kinds)
+TargetBag == SelectSeq(<<"doc", "doc", "doc", "create", "modify", "delete">>, LAMBDA t : t \in Targets)
 \* one random call; every random choice is bound once by a singleton quantifier.  Half of the new elements are another
 \* version of the feature appended last (histories with several versions, appended in any order), half of the sorts sort
-\* the kind appended last
+\* the kind appended last; most appends go where the previous one went and most sorts sort a slice of two or more elements
+SortCands == {ck \in Targets \X (ElemKindSet \cap Kinds) : ~Cont(ck[1]).nil /\ Len(Cont(ck[1])[ck[2]]) >= 2}
 Walk ==
-  \E c \in {RandomElement(1 .. 100)} : \E t \in {RandomElement(Targets)} : \E k0 \in {KindBag[RandomElement(1 .. Len(KindBag))]} :
+  \E c \in {RandomElement(1 .. 100)} : \E t \in {TargetBag[RandomElement(1 .. Len(TargetBag))]} : \E k0 \in {KindBag[RandomElement(1 .. Len(KindBag))]} :
   \E i0 \in {RandomElement(Ids)} : \E v \in {RandomElement(Vers)} : \E b \in {RandomElement(VisVals)} :
   \E s \in {RandomElement(1 .. Len(heap) + 1)} : \E ek0 \in {RandomElement(ElemKindSet \cap Kinds)} :
-  \E again \in {RandomElement(BOOLEAN)} :
+  \E again \in {RandomElement(BOOLEAN)} : \E same \in {RandomElement(1 .. 10)} :
+  \E sc \in {IF SortCands = {} THEN <<"none", "none">> ELSE RandomElement(SortCands)} :
   \E tk \in {RandomElement(TagKeys)} : \E tv \in {RandomElement(TagVals)} :
   \E rk \in {RandomElement(RefKinds)} : \E rv \in {RandomElement(RefVers)} :
   \E la \in {RandomElement(Coords)} : \E lo \in {RandomElement(Coords)} :
@@ -50,10 +53,12 @@ Walk ==
         k  == IF again /\ lastElem THEN heap[Len(heap)].k ELSE k0
         i  == IF again /\ lastElem THEN heap[Len(heap)].id ELSE i0
         ek == IF again /\ lastElem THEN heap[Len(heap)].k ELSE ek0
-        new == NewOp(t, k, i, v, b)
+        tt == IF same <= 6 /\ last.op = "append" THEN last.to ELSE t
+        new == NewOp(tt, k, i, v, b)
         o == IF c <= W[1] THEN new
-             ELSE IF c <= W[2] THEN (IF s <= Len(heap) THEN ReOp(t, s) ELSE new)
-             ELSE IF c <= W[3] THEN (IF Cont(t).nil THEN new ELSE [op |-> "sort", to |-> t, k |-> ek])
+             ELSE IF c <= W[2] THEN (IF s <= Len(heap) THEN ReOp(tt, s) ELSE new)
+             ELSE IF c <= W[3] THEN (IF same <= 8 /\ sc[1] # "none" THEN [op |-> "sort", to |-> sc[1], k |-> sc[2]]
+                                     ELSE IF Cont(t).nil THEN new ELSE [op |-> "sort", to |-> t, k |-> ek])
              ELSE IF c <= W[4] THEN [op |-> "docds"]
              ELSE IF c <= W[5] THEN [op |-> "chgds"]
              ELSE IF c <= W[6] THEN [op |-> "tagadd", key |-> tk, val |-> tv]
